@@ -180,7 +180,7 @@ pub fn property(tier: Tier) -> Property {
             panic_is_violation: true,
             render: |c: &Mixed| c.render(),
             rule: "operation sequences (add, add_syn, union by recipes, apply_rewrites with rules from the language's pool; ematch_all and extraction as read-only probes); non-trivial = at least 3 effective unions or a rewrite iteration that changed the e-graph; distinct by rendered sequence",
-            case_timeout_s: tier.pick(120, 600),
+            case_timeout_s: tier.pick(30, 120),
             exhaustive: false,
         }));
     }
@@ -195,7 +195,7 @@ pub fn property(tier: Tier) -> Property {
             panic_is_violation: true,
             render: |c: &Mixed| c.render(),
             rule: "the same operation sequences on an e-graph that carries an analysis (smallest term size), so that analysis-only re-processing of e-nodes is interleaved with structural re-processing; same invariants; non-trivial as above",
-            case_timeout_s: tier.pick(120, 600),
+            case_timeout_s: tier.pick(30, 120),
             exhaustive: false,
         }));
     }
